@@ -67,7 +67,7 @@ def verify_writer(reg, fn, contract, label=None):
 
 
 # ------------------------------------------------------------------------------ readers
-def verify_reader(reg, fn, contract, extra_args=(), label=None):
+def verify_reader(reg, fn, contract, extra_args=(), label=None, clauses=("match", "null", "trunc", "general")):
     results = []
     d = contract.desc
     label = label or contract.name
@@ -94,12 +94,13 @@ def verify_reader(reg, fn, contract, extra_args=(), label=None):
             path_obligation(res, ctx, f"{unit}/exact-consumption", tobool(cond), expected="rest == tail",
                             got=repr(src.rest()), value=v, source=[Enc(d, v), Raw(tail)])
         collect(res, ctx)
-    explore_unit(res, run_m)
-    results.append(res)
+    if "match" in clauses:
+        explore_unit(res, run_m)
+        results.append(res)
 
     # ---- N: null form for a non-nullable reader
     sib = CS.nullable_sibling(d)
-    if sib is not None and d[0] not in ("ent", "ts"):
+    if sib is not None and d[0] not in ("ent", "ts") and "null" in clauses:
         from kio.serial.errors import UnexpectedNull
         unit = f"L1/reader/{label}/null"
         res = Result(unit)
@@ -129,6 +130,8 @@ def verify_reader(reg, fn, contract, extra_args=(), label=None):
         enc = Enc(d, v)
         for f in kafka.length_facts(enc):
             ctx.assume(f)
+        if d[0] == "ent":
+            kafka.unfold(ctx, enc)      # records |E_T(x)| == sum of the field encodings' lengths
         cut = ctx.int_const("cut", 0)
         ctx.assume(cut < zint(enc.length()))
         src = Source(ctx, [enc], avail=cut)
@@ -139,8 +142,9 @@ def verify_reader(reg, fn, contract, extra_args=(), label=None):
                         z3.BoolVal(out.kind == "raise" and out.exc is BufferUnderflow),
                         expected="raise BufferUnderflow", got=repr(out), value=v, source=[enc], cut=cut)
         collect(res, ctx)
-    explore_unit(res, run_t)
-    results.append(res)
+    if "trunc" in clauses:
+        explore_unit(res, run_t)
+        results.append(res)
 
     # ---- G: general
     unit = f"L1/reader/{label}/general"
@@ -167,8 +171,9 @@ def verify_reader(reg, fn, contract, extra_args=(), label=None):
             path_obligation(res, ctx, f"{unit}/consumes-at-most-input",
                             zint(src.consumed) <= blen(r), source=[Raw(r)])
         collect(res, ctx)
-    explore_unit(res, run_g)
-    results.append(res)
+    if "general" in clauses:
+        explore_unit(res, run_g)
+        results.append(res)
     return results
 
 
@@ -226,6 +231,24 @@ def in_python_domain(ctx, d, v, contract=None):
         return v is None or isinstance(v, (tuple, SSeq))
     if k == "absitem":
         return isinstance(v, SOpaque) and v.kind == "absitem"
+    if k == "ent":
+        from kvc.core import SRec
+        from spec import schema_spec
+        if isinstance(v, SRec):
+            if v.cls is not d[1]:
+                return False
+            conds = []
+            for fs in schema_spec.field_plan(d[1]):
+                fd = fs.desc
+                if fs.tag is not None and fs.nullable:
+                    fd = CS.nullable_sibling(fd) or fd
+                c = in_python_domain(ctx, fd, v.fields[fs.name])
+                if c is False:
+                    return False
+                if c is not True:
+                    conds.append(tobool(c))
+            return z3.And(*conds) if conds else True
+        return type(v) is d[1]
     raise Undecided(f"in_python_domain {d}")
 
 
